@@ -1,13 +1,15 @@
 import DelbModel.Model.XPath.Eval
 import DelbModel.Lemmas.XPathEval
 import DelbModel.Lemmas.LocationPath
+import DelbModel.Lemmas.LocationPathParse
 /-!
 # C14 — location_path is a unique address of a tag node
 
 Property theorems only; helper lemmas are in `DelbModel/Lemmas/LocationPath.lean`.
 `locationPathAst root p` is the expression the string `location_path` denotes (`/*` followed by one
 `*[position()=k]` step per level, k counted among tag siblings); that `parse` turns the string into
-this expression is checked per explored case through the parser model (driver), see DESIGN.md.
+this expression is `c14_parse_location_path_partial` (for indexes of at most `Gen.intMaxStrDigits` digits; beyond that
+the parser refuses the number, see the comment there).
 -/
 namespace Delb.XPath
 open Delb.Edit
@@ -47,6 +49,83 @@ theorem c14_shape (root : PTree) (p : List Nat) :
     · exact ⟨rfl, rfl, .inl rfl⟩
     · obtain ⟨k, _, rfl⟩ := List.mem_map.1 hs
       exact ⟨rfl, rfl, .inr ⟨k + 1, rfl⟩⟩
+
+/-
+The unconditional statements
+
+  theorem c14_parse_location_path (root : PTree) (p : List Nat) :
+      parse (locationPath root p) = .ok (locationPathAst root p)
+
+  theorem c14_string_selects_self (root : PTree) (p : List Nat) (hp : tagPath root p = true)
+      (env : NsEnv) (ctx : List Nat) :
+      ∃ e, parse (locationPath root p) = .ok e ∧ evaluate root env ctx e = .ok [.at p]
+
+are FALSE in the model: `parseExpr` refuses a number literal whose digit string is longer than
+`Gen.intMaxStrDigits` (= `sys.get_int_max_str_digits()` = 4300; `int()` raises ValueError beyond that), and
+`PTree` has trees of any width.  Counterexample (`c14_parse_location_path_counterexample` below, proved):
+
+  root = .tag 0 "" "r" [] (List.replicate (10 ^ 4300) (.tag 1 "" "a" [] []))      p = [10 ^ 4300 - 1]
+  tagPath root p = true
+  locationPath root p          = "/*/*[1000…0]"                (1 followed by 4300 zeros: 4301 digits)
+  parse (locationPath root p)  = .error (.parsing (some 5) "Number literal is too long.")
+  .ok (locationPathAst root p) = .ok [{ absolute := true, steps := [ *, *[position() = 10 ^ 4300] ] }]
+
+(the same with shorter numbers, evaluated: `parse "/*/*[" ++ 4300 × '1' ++ "]"` is `.ok …`,
+`parse "/*/*[" ++ 4301 × '1' ++ "]"` is `.error (.parsing (some 5) "Number literal is too long.")`).
+What holds is the statement for every path whose printed indexes have at most `Gen.intMaxStrDigits` digits -
+and only for those (`c14_parse_location_path_iff`).
+-/
+
+/-- the string that `location_path` returns is parsed (tokenizer + parser model of C16) into exactly the
+    expression the theorems above are about, provided every printed index `k + 1` is below
+    `10 ^ Gen.intMaxStrDigits` (or there is no limit): `parse(location_path)` does not fail and yields
+    `locationPathAst` -/
+theorem c14_parse_location_path_partial (root : PTree) (p : List Nat)
+    (h : ∀ k ∈ tagIdxs root [] p, Gen.intMaxStrDigits = 0 ∨ k + 1 < 10 ^ Gen.intMaxStrDigits) :
+    parse (locationPath root p) = .ok (locationPathAst root p) :=
+  lpp_parse_locationPath_ok root p (fun k hk => (lpp_fits_iff k).2 (h k hk))
+
+/-- otherwise the parser refuses the string, with this error -/
+theorem c14_parse_location_path_too_long (root : PTree) (p : List Nat)
+    (h : ¬ ∀ k ∈ tagIdxs root [] p, Gen.intMaxStrDigits = 0 ∨ k + 1 < 10 ^ Gen.intMaxStrDigits) :
+    ∃ pos, parse (locationPath root p) = .error (.parsing (some pos) "Number literal is too long.") :=
+  lpp_parse_locationPath_error root p (fun h' => h (fun k hk => (lpp_fits_iff k).1 (h' k hk)))
+
+/-- the condition is exact -/
+theorem c14_parse_location_path_iff (root : PTree) (p : List Nat) :
+    parse (locationPath root p) = .ok (locationPathAst root p) ↔
+      ∀ k ∈ tagIdxs root [] p, Gen.intMaxStrDigits = 0 ∨ k + 1 < 10 ^ Gen.intMaxStrDigits := by
+  refine ⟨fun hok => ?_, c14_parse_location_path_partial root p⟩
+  apply Classical.byContradiction
+  intro h
+  obtain ⟨pos, hpos⟩ := c14_parse_location_path_too_long root p h
+  rw [hpos] at hok
+  cases hok
+
+/-- in particular: every address whose child indexes are below `10 ^ Gen.intMaxStrDigits - 1` (the printed
+    index never exceeds the child index + 1) -/
+theorem c14_parse_location_path_of_small (root : PTree) (p : List Nat)
+    (h : ∀ i ∈ p, i + 1 < 10 ^ Gen.intMaxStrDigits) :
+    parse (locationPath root p) = .ok (locationPathAst root p) := by
+  apply c14_parse_location_path_partial
+  intro k hk
+  obtain ⟨i, hi, hki⟩ := lpp_tagIdxs_le root p [] k hk
+  exact .inr (Nat.lt_of_le_of_lt (Nat.succ_le_succ hki) (h i hi))
+
+/-- the unconditional statement fails (whenever there is a limit): the last of `10 ^ Gen.intMaxStrDigits` tag
+    children of the root is a tag node whose path string the parser refuses -/
+theorem c14_parse_location_path_counterexample (h : Gen.intMaxStrDigits ≠ 0) :
+    ∃ (root : PTree) (p : List Nat), tagPath root p = true ∧
+      ∃ pos, parse (locationPath root p) = .error (.parsing (some pos) "Number literal is too long.") :=
+  ⟨_, _, lpp_wide_error h⟩
+
+/-- consequently (same proviso): parsing the path string and evaluating it from any context selects exactly
+    the node -/
+theorem c14_string_selects_self_partial (root : PTree) (p : List Nat) (hp : tagPath root p = true)
+    (h : ∀ k ∈ tagIdxs root [] p, Gen.intMaxStrDigits = 0 ∨ k + 1 < 10 ^ Gen.intMaxStrDigits)
+    (env : NsEnv) (ctx : List Nat) :
+    ∃ e, parse (locationPath root p) = .ok e ∧ evaluate root env ctx e = .ok [.at p] :=
+  ⟨_, c14_parse_location_path_partial root p h, c14_selects_self root p hp env ctx⟩
 
 /-- non-vacuity -/
 example : locationPath (.tag 0 "" "r" [] [.text 5 "q".toList, .tag 1 "" "a" [] [.tag 2 "" "b" [] []], .comment 3 [],
